@@ -177,6 +177,13 @@ def gen_patchset(rng, ws, *, dup=None):
         "patches": patches,
         "version": "1.0.0",
     }
+    if rng.random() < 0.25:
+        # the schema allows further members in the patch-set metadata - also ones named like a patch's own
+        k = rng.choice(["name", "values", "name", "values", "contact", "patch", "metadata"])
+        doc["metadata"][k] = rng.choice(["overall", [1, 2], list(patches[0]["metadata"]["values"]), patches[-1]["metadata"]["name"], {"a": 1}, 7])
+        if rng.random() < 0.4:
+            k2 = "values" if k == "name" else "name"
+            doc["metadata"][k2] = rng.choice(["setname", [300, 100], 3.5])
     return doc, dup
 
 
